@@ -6,7 +6,20 @@ using namespace coloquinte;
 namespace verif {
 const char *propId() { return "C01"; }
 
+namespace {
+bool judge(const CircuitSpec &s, const ColoquinteParameters &params, Report &R, bool record);
+}
+
 bool prop(Tape &t, Report &R) {
+  if (!t.w.empty() && t.w[0] == kExplicitSpec) {
+    CircuitSpec s = decodeSpec(t);
+    ColoquinteParameters params(1 + (int)(t.next() % 9));
+    int ow = (int)(t.next() % 4);
+    static const double ows[] = {0.2, 0.9, 0.0, 0.5};
+    params.legalization.orderingWidth = ows[ow];
+    if (s.nbMovable() == 0) return true;
+    return judge(s, params, R, false);
+  }
   GenOpts o;
   if (R.thorough()) o.maxCells = 60, o.maxLevels = 16;
   CircuitSpec s = genCircuit(t, o);
@@ -25,6 +38,11 @@ bool prop(Tape &t, Report &R) {
     R.discard("no movable cell");
     return true;
   }
+  return judge(s, params, R, true);
+}
+
+namespace {
+bool judge(const CircuitSpec &s, const ColoquinteParameters &params, Report &R, bool record) {
   Circuit c = s.build();
   Frame before = snap(c);
 
@@ -91,10 +109,99 @@ bool prop(Tape &t, Report &R) {
     if (l == "fixed:obstruction-inside" || l == "fixed:obstruction-partial" || l == "fixed:obstruction-enclosing") obstructed = true;
   long long freeArea = freeW * s.rowHeight;
   bool dense = freeArea > 0 && movArea * 10 >= freeArea * 8;
-  if (movable >= 2 && (obstructed || split || multiRow || dense || outside))
-    R.nontrivial(s.hash(), [&] { return s.json(24); });
+  if (movable >= 2 && (obstructed || split || multiRow || dense || outside)) {
+    if (record) R.nontrivial(s.hash(), [&] { return s.json(24); });
+    else ++R.nontrivialCount;
+  }
   return true;
 }
+}  // namespace
 
-bool exhaustive(Report &, int, int, Tape &) { return true; }
+// Small-scope exhaustive part: three row configurations (two full rows; a split
+// row under a full row; three short alternating rows) x {no obstruction, a 1x1
+// fixed obstruction} x every combination of 1..2 (3 thorough) movable cells of
+// size {1x1,2x1,1x2,3x1}, polarity {ANY,SAME,NW}, target x in -1..5, y in -1..3
+// x two ordering parameter sets.
+bool exhaustive(Report &R, int shard, int nshards, Tape &failTape) {
+  std::vector<std::vector<Row>> cfgs = {
+      {Row(0, 4, 0, 1, CellOrientation::N), Row(0, 4, 1, 2, CellOrientation::FS)},
+      {Row(0, 2, 0, 1, CellOrientation::N), Row(3, 5, 0, 1, CellOrientation::N), Row(0, 5, 1, 2, CellOrientation::FS)},
+      {Row(0, 3, 0, 1, CellOrientation::N), Row(0, 3, 1, 2, CellOrientation::FS), Row(0, 3, 2, 3, CellOrientation::N)}};
+  struct Opt {
+    int w, h, pol, x, y;
+  };
+  bool th = R.thorough();
+  std::vector<Opt> full, reduced;
+  static const int sizes[][2] = {{1, 1}, {2, 1}, {1, 2}, {3, 1}};
+  static const int pols[] = {0, 1, 3};
+  for (auto &sz : sizes)
+    for (int p : pols)
+      for (int x = -1; x <= 5; ++x)
+        for (int y = -1; y <= 3; ++y) full.push_back({sz[0], sz[1], p, x, y});
+  for (int k = 0; k < 3; ++k)
+    for (int p : {0, 3})
+      for (int x : {0, 2, 4})
+        for (int y : {0, 1, 2}) reduced.push_back({sizes[k][0], sizes[k][1], p, x, y});
+  long long idx = 0;
+  auto runOne = [&](const CircuitSpec &s, int ow) -> bool {
+    ColoquinteParameters params(1);
+    static const double ows[] = {0.2, 0.9};
+    params.legalization.orderingWidth = ows[ow];
+    ++R.exhaustiveStates;
+    R.heartbeat();
+    Report tmp;
+    tmp.frozen = true;
+    if (!judge(s, params, tmp, false)) {
+      R.failReason = tmp.failReason;
+      failTape = encodeSpec(s, {0, ow});
+      return false;
+    }
+    R.nontrivialCount += tmp.nontrivialCount;
+    return true;
+  };
+  for (size_t ci = 0; ci < cfgs.size(); ++ci)
+    for (int obst = 0; obst < 2; ++obst) {
+      CircuitSpec base;
+      base.rowHeight = 1;
+      base.rows = cfgs[ci];
+      if (obst) {
+        CellSpec f;
+        f.fixed = true, f.obstruction = true, f.w = 1, f.h = 1, f.x = 1, f.y = 0;
+        base.cells.push_back(f);
+      }
+      auto mk = [&](const Opt &o) {
+        CellSpec c;
+        c.w = o.w, c.h = o.h, c.polarity = o.pol, c.x = o.x, c.y = o.y;
+        return c;
+      };
+      for (size_t a = 0; a < full.size(); ++a) {
+        if ((idx++) % nshards != shard) continue;
+        for (int ow = 0; ow < 2; ++ow) {
+          CircuitSpec s1 = base;
+          s1.cells.push_back(mk(full[a]));
+          if (!runOne(s1, ow)) return false;
+          for (size_t b = 0; b < full.size(); ++b) {
+            CircuitSpec s2 = s1;
+            s2.cells.push_back(mk(full[b]));
+            if (!runOne(s2, ow)) return false;
+          }
+        }
+      }
+      if (th)
+        for (size_t a = 0; a < reduced.size(); ++a) {
+          if ((idx++) % nshards != shard) continue;
+          for (size_t b = 0; b < reduced.size(); ++b)
+            for (size_t d = 0; d < reduced.size(); ++d)
+              for (int ow = 0; ow < 2; ++ow) {
+                CircuitSpec s3 = base;
+                s3.cells.push_back(mk(reduced[a])), s3.cells.push_back(mk(reduced[b])), s3.cells.push_back(mk(reduced[d]));
+                if (!runOne(s3, ow)) return false;
+              }
+        }
+    }
+  R.exhaustiveDone = true;
+  R.sample(std::string("{\"exhaustive\":\"3 row configurations x {no obstruction, 1x1 obstruction} x all 1..2 cell combinations from 4 sizes x 3 polarities x 35 targets") +
+           (th ? ", plus all 3-cell combinations from a reduced set of 54 options" : "") + ", x 2 ordering-width values\"}");
+  return true;
+}
 }  // namespace verif
